@@ -16,7 +16,7 @@ CLAIMS = {
          "parsers is a conversion result unless its definition carries a documented waiver (R01b); in Rule.parse every "
          "path to the final return passes origin transform, element parser and validators loop under their guards, in "
          "order, with results assigned back; early exits are the two accepted shortcuts (R01c); stores into the binding "
-         "results of the lookup strategies and parse_params are parse results (R01d).",
+         "results of the lookup strategies and parse_params are parse results (R01d). R01a splits conditional returns into their arms and treats results of foreign parse functions (json.loads, ast.literal_eval) as unconverted input.",
     note="Undecided: that each converter's constructor yields a conforming value for every input (value-level), "
          "_parse_decimal arithmetic, user-supplied converters.",
     technique="return-provenance with dominating type-guard facts, typestate (RAW/PARSED) of container stores, "
@@ -28,7 +28,7 @@ CLAIMS = {
          "subscript after a fallen-through range check (R04b); element parsers use only operations every dispatched "
          "container type supports (R04c); every while loop carries a recognised termination argument, numeric shrink "
          "loops a finiteness guard (R04d); the wrapped function / generated __init__ only ever receives the parser's "
-         "result (R04e). Decides the mechanism, not the value-level behaviour.",
+         "result (R04e). Decides the mechanism, not the value-level behaviour. Error constructors / message properties of the ParseError family never format the offending value (R04g); errors are handed to the context the owner flushes (R04f).",
     note="Undecided: RecursionError by input depth (bounded only through C18), unbounded input iterators, exceptions "
          "raised by operations other than the enumerated foreign calls.",
     technique="AST + CFG exception-edge containment, interprocedural caller containment, provenance of error objects, "
@@ -39,7 +39,7 @@ CLAIMS = {
          "mutating dict method (R07a); every write to raw storage stores the result of a parse call (R07b); every raw "
          "removal is dominated by the immutable / is_required guards (R07c); copy() binds fresh storage (R07d); setter "
          "contexts are forced, handle_error honours force_error, and the parse result is tested against the sentinel "
-         "before it is stored (R07e); the dependants recomputation is reached after every store (R07f).",
+         "before it is stored (R07e); the dependants recomputation is reached after every store (R07f). Accessors per field and Final immutability (R07g); keyed lookups in the fields table go through get_field (R07h).",
     note="Undecided: recomputation after deletion of a dependency; equality of the attribute and key views as values.",
     technique="mutator-table exhaustiveness, provenance typestate (RAW/PARSED) of stored values, dominating guard facts",
     ref="DESIGN.md 3/C07"),
@@ -77,7 +77,7 @@ CLAIMS = {
          "per action the guard vector - admissible value classes of every Options attribute tested on the way, policy "
          "literals, polarity of the field predicates, closed under summaries of is_required / is_no_input / "
          "parse_addition read from their source - is identical in both (R06a); the alias-conflict comparison compares "
-         "raw with raw (R06b); the selector is exclusive, passes identical arguments, returns the result unchanged (R06c).",
+         "raw with raw (R06b); the selector is exclusive, passes identical arguments, returns the result unchanged (R06c). Consumed-input bookkeeping (R06d), case normalisation (R06e), consumed keys marked on every path from `the field got a value` (R06f), the absence/default pass iterates all declared fields (R06g).",
     note="Undecided: equality of results in general (needs differential execution); ordering of result keys.",
     technique="sibling cross-check by must-fact guard vectors over a finite value-class domain with callee summaries",
     ref="DESIGN.md 3/C06"),
@@ -87,7 +87,7 @@ CLAIMS = {
          "reassigned input, | and ^ return the exact-type guarded input or a conversion of the original input (R09b); "
          "error discipline per branch, no return inside the ^ loop (R09c); operator methods build the combinator they "
          "denote, reflected operators keep operand order, double negation / dedupe / Any / collapse / flatten are "
-         "present (R09d).",
+         "present (R09d). The exact-type guard is the bare comparison, not a disjunction admitting subclass instances.",
     note="Undecided: 'accepts exactly when at least one accepts' as a relation over inputs.",
     technique="reaching definitions of the conversion subject per branch, provenance of returned values, guard facts",
     ref="DESIGN.md 3/C09"),
@@ -96,7 +96,7 @@ CLAIMS = {
          "every context.enter passes a non-None route and enter() chains context/route/options (R18b); data-class "
          "contexts are created with the caller's context along every hop (R18c); each staged retry of the union is "
          "guarded so that it is skipped when the current options already include the stage's flags - truth table over "
-         "the guard - with a final unconditional stage (R18d).",
+         "the guard - with a final unconditional stage (R18d). Every write to the depth is the inherit form or the single increment and the depth error is raised, not collected (R18a); the creating context's conversion flags must survive the data-class boundary (R18e, known finding F34); no branch re-enters the combinator on its own input (R18f).",
     note="Undecided: the asymptotic bound as a measured quantity.",
     technique="None-exactness lint on the route parameter, call-chain argument flow, finite truth-table evaluation of guards",
     ref="DESIGN.md 3/C18"),
@@ -107,7 +107,7 @@ CLAIMS = {
          "is_required, nothing stored afterwards, defaults only when not required, is_required honours ignore_required / "
          "always_no_input (R05c); parse_addition is the ordered switch False->ExceedError, falsy->drop, no type->keep, "
          "type->convert (R05d); no_output gates before mapping stores, option precedence in get_default, lookup order "
-         "name->alias->case-insensitive (R05e).",
+         "name->alias->case-insensitive (R05e). A field's own alias_from overrides the alias generator (R05f); parse-time defaults bind defer=False effectively, explicit or via the callee's declared default (R05g); a key that matched a declared field is marked consumed on every path (R06f).",
     note="Undecided (the core): alias/case tables as values, mode strings, option interactions - needs a reference model "
          "over declarations x inputs.",
     technique="must-pass-through / dominating guard facts per enforcement point, dead-branch (ordering) check on the switch",
@@ -117,7 +117,7 @@ CLAIMS = {
          "partitioned by the policy literal - EXCLUDE warns, never raises and reaches no store / value return; PRESERVE "
          "warns, never raises and reaches a store / return of exactly the raw element that failed; otherwise a ParseError "
          "goes to handle_error; the policy attribute matches the element kind (R11a); required fields raise under EXCLUDE "
-         "(R11b); element parsers apply only operations every dispatched container type supports (R04c).",
+         "(R11b); element parsers apply only operations every dispatched container type supports (R04c). Every policy-guarded conversion runs on a child context from enter() (R11c).",
     note="Undecided: the metamorphic equality with the filtered input (value-level).",
     technique="handler partition by policy atoms, CFG reachability of stores/returns per partition, provenance of the preserved element",
     ref="DESIGN.md 3/C11"),
@@ -127,7 +127,7 @@ CLAIMS = {
          "result channel exactly under parse_result, wrap() dispatches each function kind with all settings (R08a); the "
          "wrapped function only receives get_params' result and parse_params flushes before returning (R08b=R04e); with "
          "declared yield/send/return types the raw item / sent value / return value cannot reach the yield / send / "
-         "return (R08c); the value returned by send()/asend() is used (R08d).",
+         "return (R08c); the value returned by send()/asend() is used (R08d). parse_data dominates every return of parse_params and is unconditional (R08e).",
     note="Undecided (the core): positional index mapping, alias equivalence, *args offsets, defaults - needs generated "
          "signatures against inspect.Signature.bind.",
     technique="sibling agreement of wrapper call sequences, dominance, reaching definitions avoiding waiver branches, "
@@ -139,7 +139,7 @@ CLAIMS = {
          "return types are re-resolved, nested types recursively (R17b); the late re-parse applies the constraints, key, "
          "pending table and globals stored with the pending reference (R17c); apply/__call__ dereference an evaluated "
          "ForwardRef before dispatch and raise for an unevaluated one (R17d); local-scope resets happen after "
-         "re-resolution and classes can resolve their own name (R17e).",
+         "re-resolution and classes can resolve their own name (R17e). Each pending entry stores the reference object of its own annotation (R17f).",
     note="Undecided (the core): behavioural equivalence with the directly written declaration for every order of "
          "definition and first use.",
     technique="dominance / must-pass-through at entries, argument-flow checks on the late re-parse, statement order on the CFG",
@@ -186,7 +186,7 @@ CLAIMS = {
          "parse accept '-' wherever they accept '+' (R14c); the sign of a textual duration multiplies the value built "
          "from all matched components and the encoder negates the whole value (R14d); after the UTC marker is stripped "
          "every return that parses the stripped text re-attaches UTC under the flag (R14e); byte codecs agree and "
-         "decimals are rebuilt from text, never from the float (R14f).",
+         "decimals are rebuilt from text, never from the float (R14f). json.loads in the converters uses default decoding (R14g); the designators the duration encoder writes are the ones the ISO pattern reads, in order, with a sign group (R14h).",
     note="Undecided (the core): equality of the re-parsed instance for every value of the domain; inclusion of the "
          "isoformat()/duration_iso_string languages in what strptime formats / DURATION_REGS accept. Observed, not "
          "derivable: Set[Tuple[...]] does not parse back (set(...) of raw lists before element conversion).",
@@ -200,7 +200,7 @@ CLAIMS = {
          "input-carrying parameter of the parse core, converters or validators (aliases, elements and attributes "
          "followed; copies break the chain) (R19b); every write to state that outlives the call, enumerated from the "
          "runtime entries over the receiver-aware call graph whether locked or not, is one of the listed semantically "
-         "transparent memos (R19c); the per-call context is never stored on a shared object (R19d).",
+         "transparent memos (R19c); the per-call context is never stored on a shared object (R19d). Objects the mutating helpers own by table are created for the call at every call site (R19e).",
     note="Undecided: aliasing of unconverted containers between input and output (not a mutation during parsing); "
          "equality of outcomes across call histories (needs replay against fresh-process results).",
     technique="provenance of mutator receivers from input parameters, shared-write inventory over the call graph "
@@ -231,7 +231,7 @@ CLAIMS = {
          "(R15c, R15f); the translator recurses only on strict components of its schema argument, never through $ref "
          "resolution, and no call cycle passes the schema on unchanged (R15d); every condition that triggers the name "
          "sanitiser (base-class attributes, names already used, the loop's own un-sanitised keys) is handed to it, "
-         "fields and annotations share the sanitised key and the schema key is kept as alias (R15e).",
+         "fields and annotations share the sanitised key and the schema key is kept as alias (R15e). Memo keys of translations mention every argument (R15g); the sanitised name cannot start with an underscore and private-prefix names are sanitised (R15h); presence of const / default is decided by a sentinel, not truthiness (R15i).",
     note="Undecided: that every value the built type returns validates against the source schema (needs an independent "
          "validator on generated schemas and instances); keyword combinations Rule.annotate rejects (e.g. maximum "
          "together with exclusiveMaximum, a zero max length) - observed, not derivable by these rules.",
